@@ -25,9 +25,9 @@ ASSUME = [
     "one-cell array at another offset have no successor state; generators set the flag only on such arrays",
     "word-level assumption documented by both domains: every access to an array uses its one element size (other sizes: no "
     "successor state in the theorem, not generated for the oracle)",
-    "theorem on array_smashing<interval_domain>: histories without meet / narrowing / rename (mirrored and corresponded, "
-    "not proved: the property lists joins and widenings only); expand on arrays within its documented use (the new array "
-    "is fresh); integer arrays only (bool / real arrays are not modelled)",
+    "theorem on array_smashing<interval_domain>: histories without meet / narrowing (mirrored and corresponded, not proved: "
+    "the property lists joins and widenings only); rename of one variable at a time and expand on arrays within their "
+    "documented use (the new name is fresh); integer arrays only (bool / real arrays are not modelled)",
     "array_adaptive_domain: only the cell algebra and the store/load decision table are modelled and proved; its transfer "
     "functions and lattice operations (ghost variables, renaming) are covered by the oracle search only",
     "which removed-flag survives when a cell is removed on one side only of an offset-map join/meet depends on the sharing "
@@ -241,7 +241,6 @@ def replay(path):
             rc, out = vlib.sh([drv, "--mode=" + mode, cf])
             print("model:", out.strip())
     if not line.startswith("cells"):
-        a = [l for l in out.split("\n") if l.startswith("R 0 ")]
         rc, out = vlib.sh([exe, "--mode=" + mode, cf])
         a = [l for l in out.split("\n") if l.startswith("R 0 ")]
         print("oracle:", arrays.oracle(line, a[0][4:]) if a else "no answer (abort)")
